@@ -45,6 +45,7 @@ def main():
         rebased=os.path.exists(patch)
         if not rebased: patch=os.path.join(src,f'patch{n}.diff')
         demo=os.path.join(src,f'demo{n}.diff')
+        if os.path.exists(os.path.join(src,f'demo{n}.rebased.diff')): demo=os.path.join(src,f'demo{n}.rebased.diff')
         if not os.path.exists(patch): print('no patch',key); continue
         r=res.get(key,'')
         ok=('a_suite_with_patch=ok' in r and 'b_demo_with_patch=fails' in r and 'c_demo_without_patch=passes' in r)
